@@ -590,6 +590,18 @@ func (g *jsGen) expr(d int) string {
 		return r.Pick([]string{"Math.max(" + g.args() + ")", "Math.pow(" + g.expr(d+1) + ",2)", "Math.floor(" + g.expr(d+1) + ")", "String(" + g.expr(d+1) + ")", "Number(" + g.expr(d+1) + ")", "Boolean(" + g.expr(d+1) + ")", "Array.isArray(" + g.expr(d+1) + ")", "JSON.stringify(" + g.expr(d+1) + ")", "parseInt(" + g.str() + ",10)", "Object.keys(" + g.objectLit() + ")", "Symbol.iterator in []"})
 	case 36:
 		if g.inGen && d <= 1 {
+			switch r.Intn(7) {
+			case 0: // a comma group as operand, alone or leading a binary / conditional operand
+				return "(yield (" + g.expr(d+1) + "," + g.expr(d+1) + "))"
+			case 1:
+				return "(yield (" + g.expr(d+1) + "," + g.expr(d+1) + ")" + r.Pick([]string{"||", "&&", "??"}) + g.expr(d+1) + ")"
+			case 2:
+				return "(yield (" + g.expr(d+1) + "," + g.expr(d+1) + ")?" + g.expr(d+1) + ":" + g.expr(d+1) + ")"
+			case 3: // yield as operand of unary and binary operators
+				return "(" + r.Pick([]string{"typeof ", "!", "void ", "-"}) + "(yield " + g.expr(d+1) + "))"
+			case 4:
+				return "(" + g.expr(d+1) + r.Pick([]string{"+", "||", "&&", "===", ","}) + "(yield " + g.expr(d+1) + "))"
+			}
 			return "(yield " + g.expr(d+1) + ")"
 		}
 		return g.someVar(false)
@@ -1105,6 +1117,23 @@ func (g *jsGen) stmt() string {
 	case 33:
 		if !g.strict && g.inFunc == 0 && r.Chance(1, 2) {
 			return "with({a:1,b:2})h(" + g.nextSite() + ",a,b);"
+		}
+		if g.inGen {
+			return "if(" + g.expr(2) + ")yield " + g.expr(2) + ";"
+		}
+		if !g.strict && g.inFunc == 0 {
+			// sloppy-mode object-literal method, getter or setter whose body uses `with`: its locals and parameters
+			// may be shadowed by the with-object
+			site := g.nextSite()
+			obj := "{name:" + g.str() + ",p:" + g.number() + ",e:1,t:2,n:3}"
+			body := "var name=" + g.number() + ",count=" + g.number() + ";with(" + obj + "){h(" + site + ",name,p,count)}"
+			switch r.Intn(3) {
+			case 0:
+				return "({m(p){" + body + "}}).m(" + g.number() + ");"
+			case 1:
+				return "({set s(p){" + body + "}}).s=" + g.number() + ";"
+			}
+			return "({get g(){var p=" + g.number() + ";" + body + "return 1}}).g;"
 		}
 		return ";"
 	case 34:
